@@ -120,6 +120,9 @@ main(void)
 			CRC32C_CTX ctx; uint8_t cbuf[4];
 			char * p = tok[3];
 
+			/* the context and the output start as junk; the bytes an Update has consumed are
+			 * the caller's again when it returns, and the caller overwrites them */
+			memset(&ctx, 0xAA, sizeof(ctx)); drv_junk(cbuf, 4);
 			abort_armed = 1;
 			if (sigsetjmp(abort_env, 1) == 0) {
 				CRC32C_Init(&ctx);
@@ -130,6 +133,7 @@ main(void)
 						if (*p == ',') p++;
 						if (l > len - pos) { bad = 1; break; }
 						CRC32C_Update(&ctx, buf + pos, l);
+						drv_scribble(buf + pos, l);
 						pos += l;
 					}
 				}
@@ -153,6 +157,7 @@ main(void)
 			void * base; uint8_t * buf = place(data, len, off, &base);
 			CRC32C_CTX ctx;
 
+			memset(&ctx, 0xAA, sizeof(ctx));
 			abort_armed = 1;
 			if (sigsetjmp(abort_env, 1) == 0) {
 				CRC32C_Init(&ctx);
